@@ -150,6 +150,7 @@ func exploreItem(c *vf.Ctx, it item, idx int, race bool) {
 	e := &explorer{}
 	outcomes := map[string]bool{}
 	assigns := map[string]bool{}
+	var firstOut []float64
 	d := &dfsCtl{e: e, body: func(p tp.ThreadPool) ([]float64, error) { return it.b.run(it.N, p) },
 		T: it.T, buf: it.Buf, bound: it.Bound, cap: it.Cap, shard: c.Shard, nshard: c.NShard}
 	label := fmt.Sprintf("%s|T=%d|buf=%d", it.Body, it.T, it.Buf)
@@ -190,10 +191,19 @@ func exploreItem(c *vf.Ctx, it item, idx int, race bool) {
 			return
 		}
 		if ok, why := closeEnough(r.out, ref); !ok {
-			c.Violate("result|"+cls, "schedule-dependent result: "+why+" assignment="+r.rep.Assignment, rank, cs)
+			c.Violate("result|"+cls, "result differs from the sequential run: "+why+" assignment="+r.rep.Assignment, rank, cs)
 			c.Outcome("result-differs")
 		} else {
 			c.Outcome("equal-to-sequential")
+		}
+		// independently of the sequential reference: all schedules of one item agree with the
+		// default schedule (every shard runs it first), so a result that depends on the pool
+		// size by construction cannot hide one that depends on the interleaving
+		if firstOut == nil {
+			firstOut = append([]float64{}, r.out...)
+		} else if ok, why := closeEnough(r.out, firstOut); !ok {
+			c.Violate("result-varies-with-schedule|"+cls, "two schedules of the same item give different results: "+why+" (second operand: default schedule) assignment="+r.rep.Assignment, rank, cs)
+			c.Outcome("result-varies-with-schedule")
 		}
 		k := bitsKey(r.out)
 		if !outcomes[k] {
